@@ -87,6 +87,28 @@ CALLS = [0]  # operation counter: selects the call form (positional / keyword) a
 ANSWERS = {}  # (v, exp) -> Answer: a repeated put (same or another key) hands in the very same object
 
 
+class HostileValue:
+    """a cached value whose `expiration` raises on its first `n` reads (a stub / broken Answer-like object)"""
+
+    def __init__(self, vid, n, exp):
+        self.vid, self.left, self.exp_val = vid, n, exp
+
+    @property
+    def expiration(self):
+        if self.left > 0:
+            self.left -= 1
+            raise HostileError("expiration is not available")
+        return float(self.exp_val)
+
+
+class HostileError(Exception):
+    pass
+
+
+def exp_of(v):
+    return int(v.exp_val) if isinstance(v, HostileValue) else int(v.expiration)
+
+
 def key_obj(k: int, form: int = 0):
     """the key object for key number k.  `form` picks an equal-but-different object: the name in another case and
     the type/class as plain ints for tuple keys, `False` for the key 0, a fresh `tuple()` for `()`"""
@@ -276,7 +298,7 @@ def dump_lru(c):
         wf = f"ring has {len(fwd)} nodes, data has {len(data)} keys"
     elif any(data.get(raw(x, "key")) is not x for x in fwd):
         wf = "data[key] is not the ring node carrying that key"
-    ring = [(KID.get(raw(x, "key"), -1), getattr(raw(x, "value"), "vid", -1), int(raw(x, "value").expiration), raw(x, "hits"))
+    ring = [(KID.get(raw(x, "key"), -1), getattr(raw(x, "value"), "vid", -1), exp_of(raw(x, "value")), raw(x, "hits"))
             for x in fwd[:bound]]
     st = raw(c, "statistics")
     return {"ring": ring, "max": raw(c, "max_size"), "H": raw(st, "hits"), "M": raw(st, "misses"), "wf": wf}
@@ -285,7 +307,7 @@ def dump_lru(c):
 def dump_cache(c):
     raw = SC.raw
     data = raw(c, "data")
-    d = {KID.get(k, -1): (getattr(v, "vid", -1), int(v.expiration)) for k, v in data.items()}
+    d = {KID.get(k, -1): (getattr(v, "vid", -1), exp_of(v)) for k, v in data.items()}
     st = raw(c, "statistics")
     return {"data": d, "nc": int(raw(c, "next_cleaning")), "H": raw(st, "hits"), "M": raw(st, "misses"), "wf": None}
 
@@ -815,6 +837,74 @@ def eval_lockprobe(ctx: Ctx, case: dict):
     return fails
 
 
+
+# ------------------------------------------------------------------------------------------------
+# what is left behind after an error: a cached value whose `expiration` raises when a method looks at it
+# ------------------------------------------------------------------------------------------------
+def eval_hostile(ctx: Ctx, case: dict):
+    kind = case["cache"]
+    cls = "LRUCache" if kind == "lru" else "Cache"
+    params = {"t0": case["t0"], "max": case.get("max", 3), "interval": case.get("interval", 5)}
+    dump = dump_lru if kind == "lru" else dump_cache
+    fails = []
+    ANSWERS.clear()
+    with clock_installed():
+        cache, _ = new_cache(kind, params)
+        for i, tok in enumerate(case["ops"] + ["p7:9999:999999", "g7", "f7"]):
+            try:
+                if tok[0] == "x":
+                    k, n = (int(v) for v in tok[1:].split(":"))
+                    cache.put(key_obj(k), HostileValue(5000 + i, n, 10 ** 9))
+                    out = "U"
+                else:
+                    out = apply_op(cache, tok)
+            except HostileError:
+                out = "Xhostile"
+            except Exception as e:  # noqa: BLE001
+                out = "X" + type(e).__name__
+                fails.append((f"C17/{cls}.{OPNAME.get(tok[0], 'put')}/after-error/raises",
+                              f"after an earlier lookup failed inside the cache (a value whose expiration raises), {tok} raises {type(e).__name__}: the cache is left unusable", i))
+                break
+            ctx.count(f"hostile.{kind}." + ("error" if out == "Xhostile" else "ok"))
+            d = dump(cache)
+            if d["wf"]:
+                fails.append((f"C17/{cls}.{OPNAME.get(tok[0], 'put')}/after-error/ring-wf",
+                              f"after {tok} -> {out} (the value's expiration raised inside the method): {d['wf']}", i))
+                break
+            if kind == "lru" and len(d["ring"]) > d["max"]:
+                fails.append((f"C17/{cls}.{OPNAME.get(tok[0], 'put')}/after-error/lru-bound", f"after {tok} -> {out}: {len(d['ring'])} entries, max_size {d['max']}", i))
+                break
+    report(ctx, case, fails)
+    return fails
+
+
+def hostile_lru_enabled():
+    """LRUCache.get on the unchanged tree unlinks the node before it looks at value.expiration, so an exception there
+    leaves the node in the dict but out of the ring (a fix is proposed in corpus/C17/FIX-lru-get-unlink-before-expiry-check.diff).
+    The LRU half of this stream, and its witness, are switched on by renaming corpus/C17/hostile-lru-get.json.pending
+    to .json once the repair is in the repository."""
+    return os.path.exists(os.path.join(VERIF, "corpus", "C17", "hostile-lru-get.json")) or os.environ.get("VERIF_C17_HOSTILE_LRU") == "1"
+
+
+def gen_hostile(rng, kind):
+    ops = []
+    for _ in range(rng.range(4, 14)):
+        x = rng.below(10)
+        if x < 3:
+            ops.append(f"x{rng.below(4)}:{rng.choice([1, 1, 2])}")
+        elif x < 6:
+            ops.append(f"p{rng.below(5)}:{rng.below(900) * 8}:{rng.choice([1001, 1005, 2000])}")
+        elif x < 9:
+            ops.append(f"g{rng.below(5)}")
+        else:
+            ops.append(rng.choice(["a1", "a5", f"k{rng.below(4)}", f"f{rng.below(4)}", "s2", "s1"]) if kind == "lru" else rng.choice(["a1", "a5", "a6", f"f{rng.below(4)}"]))
+    c = {"kind": "hostile", "cache": kind, "t0": 1000, "ops": ops}
+    if kind == "lru":
+        c["max"] = rng.choice([1, 2, 3])
+    else:
+        c["interval"] = rng.choice([0, 1, 5])
+    return c
+
 # ------------------------------------------------------------------------------------------------
 def eval_case(ctx: Ctx, case: dict):
     k = case["kind"]
@@ -824,6 +914,8 @@ def eval_case(ctx: Ctx, case: dict):
         return eval_conc(ctx, case)
     if k == "lockprobe":
         return eval_lockprobe(ctx, case)
+    if k == "hostile":
+        return eval_hostile(ctx, case)
     raise ValueError(k)
 
 
@@ -927,6 +1019,11 @@ def nontrivial(case):
 
 
 def generate(ctx: Ctx, scale: int, rng, conc=True):
+    for i in range(150 * scale):
+        kind = "lru" if (i % 2 and hostile_lru_enabled()) else "cache"
+        c = gen_hostile(rng, kind)
+        ctx.case(case_key(c), True, sample=c if i < 2 else None)
+        eval_case(ctx, c)
     for _ in range(1500 * scale):
         c = gen_seq(rng, "lru")
         ctx.case(case_key(c), nontrivial(c), sample=c if len(c["ops"]) <= 12 else None)
